@@ -20,7 +20,7 @@ value the public API can build.  Callbacks are arbitrary Lean functions of the
 calls made so far, the path and the value.
 -/
 import CtyModel.Lemmas.WalkPre
-import CtyModel.Lemmas.WalkSteps
+import CtyModel.Lemmas.WalkStepsShape
 import CtyModel.Lemmas.WalkPathSet
 import CtyModel.Lemmas.WalkTrans
 import CtyModel.Lemmas.WalkReplace
@@ -157,14 +157,27 @@ then a known non-null number / string — a key of any other type is allowed and
 names nothing): the step succeeds exactly when it names an existing member
 (`stepExists`: the attribute is declared; the whole-number index is within the
 list / tuple; the key is in the map; null has no members; an unknown list or map
-has its members by type), and it does not panic. -/
-theorem apply_ok_iff_steps_exist_partial (s : PathStep) (v : Value) (hs : shapedV v = true)
+has its members by type), it does not panic, and what it returns is again a
+shaped value of a well-formed type. -/
+theorem apply_step_ok_iff_exists_partial (s : PathStep) (v : Value) (hs : shapedV v = true)
     (hw : Ty.wf v.ty = true)
     (hk : (match s with | .index k => plainKey k | .getAttr _ => true) = true) :
-    ((s.apply v).isOk = true ↔ stepExists s v = true) ∧ (s.apply v).isPanic = false := by
+    ((s.apply v).isOk = true ↔ stepExists s v = true) ∧ (s.apply v).isPanic = false ∧
+      ∀ v', s.apply v = .ok v' → shapedV v' = true ∧ Ty.wf v'.ty = true := by
   have := step_ok_iff s v hs hw hk
-  exact ⟨by rw [this.1], this.2⟩
+  exact ⟨by rw [this.1], this.2, fun v' h => step_shaped s v v' hs hw hk h⟩
 
+/-- **Whole paths.**  `Path.Apply` with plain keys on a shaped value of a
+well-formed type succeeds exactly when every step names an existing member of
+the value reached by the steps before it (`stepsExist`), and does not panic.
+`_partial`: keys that are unknown, null or marked are outside (the first two
+panic on the real code — the counterexamples above — the third is not
+examined). -/
+theorem apply_ok_iff_steps_exist_partial (p : Path) (v : Value) (hs : shapedV v = true)
+    (hw : Ty.wf v.ty = true) (hk : plainKeys p = true) :
+    ((Path.apply p v).isOk = true ↔ stepsExist p v = true) ∧ (Path.apply p v).isPanic = false := by
+  have := apply_ok_iff p v hs hw hk
+  exact ⟨by rw [this.1], this.2⟩
 
 /-! ## an identity transformation returns an equal value and visits the same paths -/
 
@@ -305,6 +318,9 @@ example : plainKey (Value.intVal 1) = true ∧ plainKey (Value.strVal "k") = tru
     plainKey ⟨.bool, .b true⟩ = true ∧ plainKey (Value.unknown .number) = false := by decide
 example : stepExists (.getAttr "a") sample = true ∧ stepExists (.getAttr "zz") sample = false := by
   decide
+example : plainKeys [.getAttr "b", .index (Value.intVal 1), .index (Value.strVal "k")] = true ∧
+    stepsExist [.getAttr "b", .index (Value.intVal 1), .index (Value.strVal "k")] sample = true ∧
+    stepsExist [.getAttr "b", .index (Value.intVal 2)] sample = false := by decide
 example : PathSet.keysOk [.getAttr "a", .index (Value.intVal 1), .index (Value.strVal "k")] = true := by
   decide
 
